@@ -691,3 +691,52 @@ func typeSwitchChains2(fn *ssa.Function, min int) []tsChain {
 	}
 	return out
 }
+
+// ruleWalkSkipDir: the directory walk drops only hidden directories.
+func ruleWalkSkipDir(p *Program, r *Report) {
+	r.Begin("R20e", "test-file discovery drops only directories: in the afero.Walk callback of getTestFiles, filepath.SkipDir (which, returned for a plain file, abandons the rest of that directory and everything below it) is returned only on paths where info.IsDir() was true", 0)
+	defer r.End()
+	gtf := p.Func(testPkg, "getTestFiles")
+	if gtf == nil {
+		r.Undecided("anchor", "getTestFiles not found", 0)
+		return
+	}
+	n := 0
+	for _, cb := range Closures(gtf) {
+		var isDirs []ssa.Value
+		ForEachInstr(cb, func(ins ssa.Instruction) {
+			if c, ok := ins.(*ssa.Call); ok && c.Call.IsInvoke() && c.Call.Method.Name() == "IsDir" {
+				isDirs = append(isDirs, c)
+			}
+		})
+		ForEachInstr(cb, func(ins ssa.Instruction) {
+			ret, ok := ins.(*ssa.Return)
+			if !ok || len(ret.Results) == 0 {
+				return
+			}
+			ev := RetVal(ret, len(ret.Results)-1)
+			ld, ok := ev.(*ssa.UnOp)
+			if !ok {
+				return
+			}
+			g, ok := ld.X.(*ssa.Global)
+			if !ok || g.Name() != "SkipDir" {
+				return
+			}
+			n++
+			r.Fn(FnName(cb))
+			guarded := false
+			for _, d := range isDirs {
+				if !reachableWhen(cb, d, false)[ins.Block()] {
+					guarded = true
+				}
+			}
+			r.Check(guarded, fmt.Sprintf("skipdir@%s~%d", FnName(cb), n), "SkipDir is returned only for directories", "the walk callback can return filepath.SkipDir for an entry that is not a directory: a dotfile next to test files makes the walk skip every remaining file of that directory, whose failing leaves then never fail the run", ret.Pos())
+		})
+	}
+	if n == 0 {
+		r.Info("sites", "the walk callback never returns SkipDir", gtf.Pos())
+	}
+}
+
+func init() { register("C20", Rule{"R20e", ruleWalkSkipDir}) }
